@@ -36,6 +36,7 @@ fn dispatch(req: &Value) -> Value {
         "args_conv" => astops::args_conv(req),
         "lex" => syn::lex(req),
         "lex_raw" => syn::lex_raw(req),
+        "parse_ok" => syn::parse_ok(req),
         "locate_tree" => syn::locate_tree(req),
         "locate_calls" => syn::locate_calls(req),
         _ => json!({"tool_error": format!("unknown op {op}")}),
